@@ -164,7 +164,8 @@ func CompileWith(s *Scenario, ignoreNotSupported bool) *Compiled {
 			}
 			progress = true
 			c.out.AugApplied++
-			if !tgt.IsDir() {
+			if !tgt.IsDir() || tgt.Kind == KAnyData || tgt.Kind == KAnyXML {
+				// a leaf, leaf-list, anydata or anyxml cannot have child nodes
 				c.conflict("augment %s targets a %s", stepsString(p.a.Target), tgt.Kind)
 				continue
 			}
